@@ -114,6 +114,7 @@ func vhStoredX(tag string, small, concrete bool) *workflow.Plan {
 		p.Reason = workflow.FailureReason(api.NondetInt(tag + "reason"))
 	}
 	symDone := false
+	noReqDone := false
 	for it := range walk.Plan(p) {
 		switch x := it.Value.(type) {
 		case *workflow.Plan:
@@ -140,6 +141,13 @@ func vhStoredX(tag string, small, concrete bool) *workflow.Plan {
 		case *workflow.Action:
 			_, inSeq := it.Chain[len(it.Chain)-1].(*workflow.Sequence)
 			x.Timeout = 7 * time.Second
+			if !inSeq && !noReqDone && !concrete {
+				// the first check action uses a plugin that takes no request object, and has already been attempted once
+				noReqDone = true
+				x.Plugin = "noreq"
+				x.Req = nil
+				x.Attempts = []*workflow.Attempt{{Start: time.Unix(0, 5000), End: time.Unix(0, 6000), Resp: kit.Resp{N: api.NondetInt(v.name("noreq_resp"))}}}
+			}
 			if inSeq && !symDone && !concrete {
 				symDone = true
 				x.Timeout = api.NondetDuration(v.name("timeout"))
@@ -167,9 +175,13 @@ func vhEqState(a, b *workflow.State, what string) {
 func vhEqAction(a, b *workflow.Action) {
 	api.Assert(a.ID == b.ID && a.Key == b.Key && a.Name == b.Name && a.Descr == b.Descr && a.Plugin == b.Plugin, "C13: action identity and definition strings round-trip")
 	api.Assert(api.IteBool(a.Timeout == b.Timeout, a.Retries == b.Retries, false), "C13: action timeout and retries round-trip")
-	ra, oka := a.Req.(kit.Req)
-	rb, okb := b.Req.(kit.Req)
-	api.Assert(oka && okb && ra.N == rb.N, "C13: typed request round-trips")
+	if a.Req == nil {
+		api.Assert(b.Req == nil, "C13: an action without a request object reads back without one")
+	} else {
+		ra, oka := a.Req.(kit.Req)
+		rb, okb := b.Req.(kit.Req)
+		api.Assert(oka && okb && ra.N == rb.N, "C13: typed request round-trips")
+	}
 	vhEqState(a.State, b.State, "action")
 	api.Assert(len(a.Attempts) == len(b.Attempts), "C13: all attempts round-trip")
 	if len(a.Attempts) == len(b.Attempts) {
